@@ -254,7 +254,7 @@ func (c *simClock) After(d time.Duration) <-chan time.Time {
 		if p.dead {
 			return
 		}
-		if p.tickerPaused {
+		if p.tickerPaused || c.w.tickerPausedAll {
 			return
 		}
 		s.Stats["cron.tick"]++
